@@ -154,6 +154,16 @@ func main() {
 		}
 		rn.merge(st)
 	})
+	// Abort-while-in-flight cases (inflight.go).
+	nInflight := r.Pick(24, 600)
+	evid.Parallel(nInflight, workers, func(i int) {
+		st := stats{}
+		for _, b := range []string{"badger", "pathbadger"} {
+			rn.inflightCase(i, b, st)
+			r.Eval(1)
+		}
+		rn.merge(st)
+	})
 	rn.finish(r.Pick(40, 150))
 }
 
